@@ -649,7 +649,7 @@ pub fn shrink(case: &Case, guard: Option<GuardPos>, kind: &str, run: &mut Runner
     let mut cur = case.clone();
     let mut g = guard;
     let mut runs = 0u32;
-    let max_runs = 220;
+    let max_runs = max_shrink_runs();
     let mut still = |c: &Case, g: Option<GuardPos>, runs: &mut u32| -> bool {
         if *runs >= max_runs {
             return false;
@@ -726,6 +726,7 @@ pub fn shrink(case: &Case, guard: Option<GuardPos>, kind: &str, run: &mut Runner
         Box::new(|c| c.members.iter_mut().for_each(|m| m.b_lay = Lay::ROW)),
         Box::new(|c| c.vals = 4),
         Box::new(|c| c.prefill = 0),
+        Box::new(|c| c.data_seed = 1),
     ];
     for f in &simple {
         let mut c = cur.clone();
